@@ -32,13 +32,14 @@ type tierCfg struct {
 	MaxSteps int64
 	BranchTO time.Duration
 	AssertTO time.Duration
+	ExactTO  time.Duration
 	MaxPower int
 	TaskTime time.Duration
 }
 
 var tiers = map[string]tierCfg{
-	"quick":    {MaxPaths: 4000, MaxSteps: 3_000_000, BranchTO: 600 * time.Millisecond, AssertTO: 10 * time.Second, MaxPower: 8, TaskTime: 8 * time.Minute},
-	"thorough": {MaxPaths: 60000, MaxSteps: 10_000_000, BranchTO: 3 * time.Second, AssertTO: 120 * time.Second, MaxPower: 64, TaskTime: 100 * time.Minute},
+	"quick":    {MaxPaths: 4000, MaxSteps: 3_000_000, BranchTO: 600 * time.Millisecond, AssertTO: 10 * time.Second, ExactTO: 3 * time.Second, MaxPower: 8, TaskTime: 8 * time.Minute},
+	"thorough": {MaxPaths: 60000, MaxSteps: 10_000_000, BranchTO: 3 * time.Second, AssertTO: 120 * time.Second, ExactTO: 60 * time.Second, MaxPower: 64, TaskTime: 100 * time.Minute},
 }
 
 type taskResult struct {
@@ -219,7 +220,7 @@ func cmdCheck(args []string) int {
 			}
 			tr := &taskResult{Harness: name, Fn: h.Name()}
 			results[idx] = tr
-			lim := interp.Limits{MaxPaths: tc.MaxPaths, MaxSteps: tc.MaxSteps, BranchTO: tc.BranchTO, AssertTO: tc.AssertTO,
+			lim := interp.Limits{MaxPaths: tc.MaxPaths, MaxSteps: tc.MaxSteps, BranchTO: tc.BranchTO, AssertTO: tc.AssertTO, ExactTO: tc.ExactTO,
 				MaxPower: tc.MaxPower, TaskDeadline: time.Now().Add(tc.TaskTime)}
 			eng, err := interp.NewEngine(h.Name(), isIdeal(h.Name()), solverCmd, lim)
 			if err != nil {
